@@ -1540,7 +1540,11 @@ class BinaryOperator(SymbolicExpression, ABC):
             for conc in self._conclusion_:
                 required_vars.update(conc._unique_variables_)
         if self._parent_:
-            required_vars.update(self._parent_._required_variables_from_child_(self, when_true))
+            # a false output of the left operand makes the conjunction false, and once the left operand holds the
+            # conjunction is what its right operand is; a TRUE output of the left operand decides nothing yet: the
+            # conjunction may still come out false, so what the parent needs from a false one is needed as well.
+            when_i_am = None if (child is self.left and when_true) else when_true
+            required_vars.update(self._parent_._required_variables_from_child_(self, when_i_am))
         return required_vars
 
 
